@@ -118,6 +118,9 @@ def run_repr(ctx, case):
     rho = make_state(r, din, case['state'])
     out = apply_ref(K, rho)
     tol = 1e-10
+    layout = ref.LAYOUTS[(case['prng'] // 7) % len(ref.LAYOUTS)]
+    ctx.label('layout=' + layout)
+    K, rho = ref.with_layout(K, layout), ref.with_layout(rho, layout)  # same values in another memory layout
     K_before, rho_before = K.copy(), rho.copy()
     # explicit Choi in (in,out,in,out) and super-operator (out*out, in*in)
     choi_ref = np.einsum('sai,sbj->iajb', K, K.conj()).reshape(din * dout, din * dout)
@@ -129,6 +132,8 @@ def run_repr(ctx, case):
     sup = ch.kraus_op_to_super_op(K)
     ctx.close(sup, super_ref, tol, 'kraus_op_to_super_op')
     ctx.close(ch.apply_super_op(sup, rho), out, tol, 'apply_super_op')
+    choi_ref_c, super_ref_c = choi_ref, super_ref
+    choi_ref, super_ref = ref.with_layout(choi_ref, layout), ref.with_layout(super_ref, layout)
     ctx.close(ch.choi_op_to_super_op(choi_ref, din), super_ref, tol, 'choi_op_to_super_op')
     ctx.close(ch.super_op_to_choi_op(super_ref), choi_ref, tol, 'super_op_to_choi_op')
     ctx.close(ch.super_op_to_choi_op(ch.choi_op_to_super_op(choi_ref, din)), choi_ref, tol, 'choi->super->choi = id')
@@ -159,6 +164,8 @@ def run_repr(ctx, case):
         ctx.label('bloch')
     ctx.close(K, K_before, 0, 'channel routines do not modify the Kraus operators they are given')
     ctx.close(rho, rho_before, 0, 'channel routines do not modify the input state')
+    ctx.close(choi_ref, choi_ref_c, 0, 'channel routines do not modify the Choi operator they are given')
+    ctx.close(super_ref, super_ref_c, 0, 'channel routines do not modify the super-operator they are given')
     # torch backend where offered
     Kt, rt = torch.tensor(K), torch.tensor(rho)
     ctx.close(ch.kraus_op_to_choi_op(Kt), choi_ref, tol, 'torch kraus_op_to_choi_op')
